@@ -23,11 +23,16 @@ LEVEL = "model_checking"
 PRODUCERS = ("none", "option", "cli-adjacent", "cli-target", "both")
 
 
-def product_files(level):
+def product_files(level, line_mode=None):
     if level == "1.1":
         images = [synth.image_spec("HH", "F1", 3, 2, "C*8"), synth.image_spec("HH", "F2", 2, 3, "C*8")]
     else:
         images = [synth.image_spec("HH", None, 3, 2, "IU2"), synth.image_spec("HV", None, 2, 3, "IU2")]
+    if line_mode:
+        # more lines, whose per-line values are identical / differ by one unit from line to line
+        images = [synth.image_spec(im["pol"], im["scan"], im["lines"] + 3, im["pixels"], im["type"]) for im in images]
+        for im in images:
+            im["line_mode"] = line_mode
     spec = synth.product_spec(level, images=images)
     files, _ = synth.build(spec)
     return spec, files
@@ -113,7 +118,7 @@ def execute(case):
     env.import_lib()
     env.wipe_cache()
     level, producer, kind, rpc_w, rpc_r = case["level"], case["producer"], case["fs"], case["rpc_w"], case["rpc_r"]
-    spec, files = product_files(level)
+    spec, files = product_files(level, case.get("line_mode"))
     names = synth.file_names(spec)["img"]
     fails = []
 
@@ -254,6 +259,12 @@ def plan(tier):
                 for rpc_w in (1, 2, 4096) if producer != "none" else (1,):
                     for rpc_r in (1, 3, 1024):
                         cases.append({"level": level, "producer": producer, "fs": fs, "rpc_w": rpc_w, "rpc_r": rpc_r})
+    # per-line values that are constant over the image or change very slowly (what a size-optimised index would fold)
+    for level in levels:
+        for mode in ("equal", "drift"):
+            for producer in ("option", "cli-adjacent", "cli-target"):
+                for fs in ("mcfs", "local"):
+                    cases.append({"level": level, "producer": producer, "fs": fs, "rpc_w": 2, "rpc_r": 3, "line_mode": mode})
     for i, c in enumerate(cases):
         c["tag"] = str(i)
     return cases
@@ -263,7 +274,7 @@ def run(res, tier, seed):
     res.rule = (
         "configurations = level {1.1 two ScanSAR images, 1.5 two polarisations} x producer {none, open option, CLI adjacent, CLI into"
         " user-cache dir, option+CLI} x filesystem {mcfs+storage_options, local path, file://, memory://} x rpc_write {1,2,4096} x"
-        " rpc_read {1,3,1024}; each configuration = produce caches, uncached open,"
+        " rpc_read {1,3,1024}, plus per-line values {identical on all lines, drifting by one unit per line} x producer x {mcfs, local};" " each configuration = produce caches, uncached open,"
         " cached open, full loads, poisoned-index opens; states = configurations, transitions = opens executed."
     )
     res.assumptions = ["I/O on memory:// cannot be observed (only tree equality is checked there)", "the adjacent index of a non-local product is produced by the CLI on a local copy and uploaded (documented workflow)"]
